@@ -8,11 +8,26 @@ def _inject(wd, rel, outname, extra=()):
         raise RuntimeError('inject failed: ' + log)
     return out
 
-def prepare_root(wd):
-    return {'connectedness_manager.go': _inject(wd, 'connectedness_manager.go', 'inj_connectedness_manager.go'),
-            'internal/notify/notify.go': _inject(wd, 'internal/notify/notify.go', 'inj_notify.go'),
+def _common(wd):
+    return {'internal/notify/notify.go': _inject(wd, 'internal/notify/notify.go', 'inj_notify.go'),
             'internal/vsched/vsched.go': os.path.join(vlib.VERIF, 'sched/vsched/vsched.go'),
-            'internal/vsched/explore.go': os.path.join(vlib.VERIF, 'sched/vsched/explore.go')}
+            'internal/vsched/explore.go': os.path.join(vlib.VERIF, 'sched/vsched/explore.go'),
+            'internal/vsched/notifycase.go': os.path.join(vlib.VERIF, 'sched/vsched/notifycase.go')}
+
+def prepare_root(wd):
+    d = _common(wd)
+    d['connectedness_manager.go'] = _inject(wd, 'connectedness_manager.go', 'inj_connectedness_manager.go')
+    return d
+
+def prepare_lifecycle(wd):
+    d = _common(wd)
+    d['pkg/lifecycle/manager.go'] = _inject(wd, 'pkg/lifecycle/manager.go', 'inj_manager.go', ['-only', 'UpdateState,WaitForStateChange'])
+    return d
+
+def prepare_tinder(wd):
+    d = _common(wd)
+    d['pkg/tinder/peer_cache.go'] = _inject(wd, 'pkg/tinder/peer_cache.go', 'inj_peer_cache.go', ['-only', 'UpdatePeer,WaitForPeerUpdate', '-skip', 'muPeers,muCache'])
+    return d
 
 SPEC = {
     'id': 'C16',
@@ -24,6 +39,16 @@ SPEC = {
         'files': [('.', 'harness/root/zz_verif_c16_test.go')],
         'prepare': prepare_root,
         'model_module': 'Model.C16_Notify', 'shard': 120, 'timeout': 1500,
+    }, {
+        'name': 'lifecycle', 'pkg': './pkg/lifecycle', 'test': 'TestVerifC16',
+        'files': [('pkg/lifecycle', 'harness/lifecycle/zz_verif_c16_test.go')],
+        'prepare': prepare_lifecycle,
+        'model_module': 'Model.C16_Notify', 'shard': 120, 'timeout': 900,
+    }, {
+        'name': 'peercache', 'pkg': './pkg/tinder', 'test': 'TestVerifC16',
+        'files': [('pkg/tinder', 'harness/tinder/zz_verif_c16_test.go')],
+        'prepare': prepare_tinder,
+        'model_module': 'Model.C16_Notify', 'shard': 120, 'timeout': 900,
     }],
     'rule': 'stateless depth-first enumeration of the schedules of small scenarios (1-2 waiters, one updater with '
             'associate/update sequences of length <= 3, optional cancellation) on the real, instrumented code, one case per '
